@@ -42,7 +42,7 @@ echo "== demo with the change: rc=$mut_rc $(grep -E '^test result|^error' /tmp/c
 git checkout -q -- src
 rm -f tests/seeded_demo.rs
 echo "clean_rc=$clean_rc (want 0) mutated_rc=$mut_rc (want != 0) builds=$b_ok missing=$missing"
-if [ $clean_rc -eq 0 ] && [ $mut_rc -ne 0 ] && [ $b_ok -eq 1 ] && [ "$missing" = "0" ] && ! grep -q "^error" /tmp/confirm_$NAME.mut; then
+if [ $clean_rc -eq 0 ] && [ $mut_rc -ne 0 ] && [ $b_ok -eq 1 ] && [ "$missing" = "0" ] && ! grep -q "could not compile" /tmp/confirm_$NAME.mut; then
     mkdir -p /verif/seeded/$NAME
     cp "$S/patch.diff" /verif/seeded/$NAME/patch.diff
     cp "$S/demo.rs" /verif/seeded/$NAME/demo.rs
